@@ -130,3 +130,12 @@ func specDecodedLen(r io.Reader, p int) int {
 	}
 	return n
 }
+
+// specFwdOrTail: byte k of (what tw forwarded to its writer since stream position base) ++ tw.tail.
+func specFwdOrTail(tw *trimLastFourBytesWriter, base, k int) byte {
+	fwd := ghwr(tw.w).pos - base
+	if k < fwd {
+		return ghwr(tw.w).out[base+k]
+	}
+	return tw.tail[k-fwd]
+}
